@@ -5,15 +5,11 @@ Property theorems only. Model: RqModel/Model/Throttler.lean (tied to
 store/throttler/throttler.go by the C36 correspondence run, by the regenerated
 LockDiscipline facts and by the regenerated default table).
 -/
-import RqModel.Model.Throttler
+import RqModel.Lemmas.Throttler
 import RqModel.Lemmas.LockFacts
 import RqModel.Gen.Throttler
 namespace C36
 open RqModel.Throttler
-
-/-- the delay level is inside the configured table and the release rate is positive -/
-def InRange (t : T) : Prop :=
-  0 ≤ t.level ∧ t.level ≤ (t.delays.length : Int) - 1 ∧ 1 ≤ t.rate
 
 /-! ### `New` normalisation -/
 
@@ -29,22 +25,10 @@ theorem new_normalises (ds : List Int) (r i : Int) :
   · simp only [new]; split <;> omega
   · simp [new]
 
-theorem new_inRange (ds : List Int) (r i : Int) : InRange (new ds r i) := by
-  refine ⟨by simp [new], ?_, ?_⟩
-  · cases ds with
-    | nil => simp [new]
-    | cons a as => simp [new]
-  · simp only [new]; split <;> omega
-
 example : InRange (new [] 0 0) ∧ (new [] (-3) 0).rate = 1 ∧ (new [] 0 0).delays = [0] := by
   refine ⟨new_inRange _ _ _, by decide, by decide⟩
 
 /-! ### the level never leaves the table -/
-
-theorem touch_level (t : T) (n : Nat) : (touch t n).level = t.level ∧
-    (touch t n).delays = t.delays ∧ (touch t n).rate = t.rate ∧ (touch t n).idle = t.idle ∧
-    (touch t n).hasTimer = t.hasTimer := by
-  unfold touch; split <;> simp
 
 /-- each pressure signal raises the level by exactly one, up to the last table index -/
 theorem signal_exact (t : T) (n : Nat) (h : InRange t) :
@@ -64,18 +48,6 @@ theorem release_exact (t : T) (n : Nat) :
   split <;> omega
 
 theorem reset_exact (t : T) : (reset t).level = 0 ∧ (reset t).deadline = none := ⟨rfl, rfl⟩
-
-/-- the configuration (table, rate, idle timeout, timer existence) is never changed by a step -/
-theorem apply_config (t : T) (op : Op) :
-    (apply t op).delays = t.delays ∧ (apply t op).rate = t.rate ∧
-    (apply t op).idle = t.idle ∧ (apply t op).hasTimer = t.hasTimer := by
-  cases op with
-  | signal n =>
-    simp only [apply, signal]
-    split <;> simp [(touch_level _ n)]
-  | release n => simp [apply, release, (touch_level _ n)]
-  | reset => simp [apply, reset]
-  | fire n => simp only [apply, fire]; split <;> simp [reset]
 
 theorem apply_inRange (t : T) (op : Op) (h : InRange t) : InRange (apply t op) := by
   have hc := apply_config t op
@@ -109,22 +81,6 @@ example : (run (new [0, 5, 9] 2 0) [.signal 0, .signal 1, .signal 2, .signal 3, 
           (run (new [0, 5, 9] 2 0) [.signal 0, .signal 1, .signal 2, .signal 3]).level = 2 := by decide
 
 /-! ### idle reset -/
-
-/-- after a `Signal`/`Release` at time `n` on a throttler that has an idle timer, the
-timer is armed for exactly `n + idleTimeout` -/
-theorem touch_arms (t : T) (n : Nat) (h : t.hasTimer = true) :
-    (signal t n).deadline = some (n + t.idle.toNat) ∧
-    (release t n).deadline = some (n + t.idle.toNat) := by
-  constructor
-  · unfold signal; split <;> simp [touch, h]
-  · simp [release, touch, h]
-
-/-- the timer step is enabled from the deadline on and never earlier -/
-theorem fire_enabled_iff (t : T) (n now : Nat) (h : t.hasTimer = true) :
-    (fireEnabled (signal t n) now = true ↔ n + t.idle.toNat ≤ now) ∧
-    (fireEnabled (release t n) now = true ↔ n + t.idle.toNat ≤ now) := by
-  obtain ⟨h1, h2⟩ := touch_arms t n h
-  simp [fireEnabled, h1, h2]
 
 /-- **Idle reset.** If nothing touches the throttler for the idle timeout after a
 `Signal` (or `Release`), the timer step returns the level to zero and stops the
